@@ -636,6 +636,13 @@ func (u *Unit) evalCall(e *SExpr, env *Env) Val {
 			u.specFail("store() needs an array")
 		}
 		return Val{T: sto(a.T, u.termOf(k), u.termOf(v))}
+	case "ptr":
+		// ptr(r, pkg.T): the reference r (an Int, e.g. a quantified variable) seen as a *pkg.T
+		x := u.eval(e.Args[0], env)
+		if x.T.Sort != "Int" {
+			u.specFail("ptr needs a reference")
+		}
+		return Val{T: x.T, Typ: u.specPointerType(e.Args[1], env)}
 	case "cast", "istype":
 		// cast(x, pkg.T) / istype(x, pkg.T): the interface value x holds a *pkg.T
 		x := u.eval(e.Args[0], env)
